@@ -286,6 +286,19 @@ func run(root, id, tier string) int {
 	)
 	for i := range outs {
 		o := &outs[i]
+		if cfg.race && strings.Contains(o.log, "WARNING: DATA RACE") {
+			// the race detector stopped the shard (halt_on_error): that is a verdict, the report is the evidence
+			rep := o.log[strings.Index(o.log, "WARNING: DATA RACE"):]
+			if len(rep) > 6000 {
+				rep = rep[:6000]
+			}
+			cj, _ := json.Marshal(map[string]any{"kind": "race_report", "report": rep, "shard": i, "seed": seed})
+			failures = append(failures, h.Failure{Property: id, Check: "race", Message: "the Go race detector reported a data race: " + oneLine(rep, 400), Case: cj, Seed: seed, Shard: i})
+			if o.res != nil {
+				failures = append(failures, o.res.Failures...)
+			}
+			continue
+		}
 		if o.res == nil {
 			infra = append(infra, fmt.Sprintf("shard %d produced no result (exit %d, timed out %v, err %v):\n%s", i, o.exit, o.timed, o.err, tail(o.log, 25)))
 			continue
